@@ -3,7 +3,7 @@ import os, random, shutil, tempfile, json
 from .. import impl, coqrun
 
 MODS = ['Model.Ast', 'Model.Fmt', 'Model.Eval']
-RULE = ('cases = (a) unguarded mixin recursion through cycles of length 1-6 in every shape (direct, through a nested rule, rulesets used as mixins, '
+RULE = ('cases = (a) unguarded mixin recursion through cycles of length 1-6 in every shape (direct, through a nested rule, through a nested rule with several selectors or with &-lists (the selector list grows at every level), rulesets used as mixins, '
         'mixed), (b) guarded recursion of depth limit-4 .. limit+4 and small depths, (c) import cycles of length 1-6 (bare names, ./ prefixes, '
         'sub-directories, self import) and acyclic chains of depth limit-2 .. limit+3, (d) variable cycles of length 1-6 at top level / in blocks, branching cycles (every variable mentions the next 2 or 3 times, length 1-4) and acyclic branching definitions '
         'and acyclic chains of length limit-4 .. limit+2 (the last family also against the Coq model); every case under a hard wall-clock limit; '
@@ -24,10 +24,19 @@ def mixin_cycle(rng, k, shape):
             out += '%s(){ .in%d{ %s(); } }\n' % (n, i, nxt)
         elif shape == 'ruleset':
             out += '%s{ w: %d; %s; }\n' % (n, i, nxt)
+        elif shape == 'comma':          # the nested rule has several selectors: the selector list grows at every level
+            out += '%s(){ .p%d, .q%d%s{ %s(); } }\n' % (n, i, i, ', .r%d' % i if (i + k) % 2 else '', nxt)
+        elif shape == 'amp':
+            out += '%s(){ .in%d{ &-x, &-y{ w: %d; %s(); } } }\n' % (n, i, i, nxt)
         else:
             out += ('%s(){ w: %d; %s(); }\n' if i % 2 else '%s(){ .q%d{ %s(); } }\n') % (n, i, nxt)
     out += ('.x{ %s(); }\n' % names[0]) if shape != 'ruleset' else ''
     return out
+
+
+def guarded_comma(n):
+    """guarded recursion through a rule with two selectors: 2^k selectors at level k, complete below the limits"""
+    return '.g(@n) when (@n > 0){ w: @n; .a, .b{ .g(@n - 1); } }\n.x{ .g(%d); }\n' % n
 
 
 def guarded(n, rng):
@@ -84,11 +93,13 @@ def run(ctx):
     quick = ctx['tier'] == 'quick'
     cases = []          # (kind, text or path, expectation, extra)
     for k in range(1, 7):
-        for shape in ('direct', 'nested', 'ruleset', 'mixed'):
+        for shape in ('direct', 'nested', 'ruleset', 'mixed', 'comma', 'amp'):
             cases.append(('mixin cycle %s' % shape, mixin_cycle(rng, k, shape), 'error', {'k': k}))
     depths = sorted(set([1, 2, 5, 30] + list(range(LIMIT_MIXIN - 4, LIMIT_MIXIN + 5))))
     for d in depths:
         cases.append(('guarded recursion', guarded(d, rng), ('ok', d) if d <= LIMIT_MIXIN else 'error', {'depth': d}))
+    for d in (1, 2, 4, 7):
+        cases.append(('guarded recursion', guarded_comma(d), ('ok', d), {'depth': d}))
     for k in range(1, 7):
         for blk in (False, True):
             cases.append(('variable cycle', var_cycle(k, blk), 'error', {'k': k, 'tree': var_cycle_tree(k, blk)}))
